@@ -217,12 +217,19 @@ func ruleReserved(c *Ctx) []Obligation {
 	// tables read by the predicate + constants compared with the parameter
 	members := map[string]bool{}
 	var tables []string
+	forcePaths := false
 	for _, b := range fn.Blocks {
 		for _, in := range b.Instrs {
 			for _, op := range in.Operands(nil) {
 				if gl, ok := (*op).(*ssa.Global); ok && gl.Pkg == c.Jen {
 					set, ok := c.globalStringSet(gl, 0)
 					if !ok {
+						// a table built by a constructor of the module from constants (a set type): the path
+						// engine knows its value; membership is then decided path by path below
+						if c.globalConst(gl.Name()) != nil {
+							forcePaths = true
+							continue
+						}
 						o.undecided(fname(fn), "table "+gl.Name(), gl.Pos(), "cannot evaluate the initialiser of %s as a constant string table", gl.Name())
 						continue
 					}
@@ -244,6 +251,9 @@ func ruleReserved(c *Ctx) []Obligation {
 	}
 	// shape: pure membership test
 	shapeOK, why := membershipShape(a)
+	if forcePaths {
+		shapeOK, why = false, "the table is built by a constructor"
+	}
 	if !shapeOK {
 		// not a table scan: evaluate the predicate path by path for every oracle word
 		words := append(goKeywords(), types.Universe.Names()...)
@@ -822,13 +832,44 @@ func ruleKeywords(c *Ctx) []Obligation {
 	return o.list
 }
 
+// tokenTypeValues: the roles of the token-type constants and the values they had when the rules
+// were written. A constant is found by name; after a renaming, by its value among the constants
+// of the token type field's type.
+var tokenTypeValues = map[string]string{
+	"packageToken": "package", "identifierToken": "identifier", "qualifiedToken": "qualified", "keywordToken": "keyword",
+	"operatorToken": "operator", "delimiterToken": "delimiter", "literalToken": "literal", "literalRuneToken": "literal_rune",
+	"literalByteToken": "literal_byte", "nullToken": "null", "layoutToken": "layout",
+}
+
 func (c *Ctx) tokenTypeConst(name string) string {
 	obj := c.Jen.Pkg.Scope().Lookup(name)
-	k, ok := obj.(*types.Const)
-	if !ok || k.Val().Kind() != constant.String {
-		broken("anchor lost: constant jen.%s", name)
+	if k, ok := obj.(*types.Const); ok && k.Val().Kind() == constant.String {
+		return constant.StringVal(k.Val())
 	}
-	return constant.StringVal(k.Val())
+	// renamed: the constant of the token struct's type field that still has the role's value
+	want, known := tokenTypeValues[name]
+	if known {
+		var fieldT types.Type
+		if tn, ok := c.Jen.Pkg.Scope().Lookup("token").(*types.TypeName); ok {
+			if st, ok := tn.Type().Underlying().(*types.Struct); ok {
+				for i := 0; i < st.NumFields(); i++ {
+					if b, ok := st.Field(i).Type().Underlying().(*types.Basic); ok && b.Info()&types.IsString != 0 {
+						fieldT = st.Field(i).Type()
+						break
+					}
+				}
+			}
+		}
+		if fieldT != nil {
+			for _, n := range c.Jen.Pkg.Scope().Names() {
+				if k, ok := c.Jen.Pkg.Scope().Lookup(n).(*types.Const); ok && types.Identical(k.Type(), fieldT) && k.Val().Kind() == constant.String && constant.StringVal(k.Val()) == want {
+					return want
+				}
+			}
+		}
+	}
+	broken("anchor lost: constant jen.%s", name)
+	return ""
 }
 
 func ruleTokContent(c *Ctx) []Obligation {
@@ -931,12 +972,17 @@ func keptRunes(re *syntax.Regexp) ([][2]rune, bool) {
 // (helpers inlined): w is reserved iff every path outcome consistent with p0 == w returns true. Only
 // comparisons of the parameter with string constants may appear as facts; anything else is undecided.
 func (c *Ctx) reservedByPaths(fn *ssa.Function, words []string) (map[string]bool, bool, string) {
-	paths, trunc := c.Paths(fn, PXConfig{MaxVisits: 2})
+	paths, trunc := c.Paths(fn, PXConfig{MaxVisits: 2, MaxDetermined: 4096, MaxDepth: 4})
 	if trunc || len(paths) == 0 {
 		return nil, false, fmt.Sprintf("%d paths, truncated %v", len(paths), trunc)
 	}
+	type member struct {
+		keys map[string]bool
+		pol  bool
+	}
 	type outcome struct {
 		eqs map[string]bool // constant -> must equal / must differ
+		in  []member        // parameter (not) among the keys of a constant table
 		val bool
 	}
 	var outs []outcome
@@ -956,11 +1002,57 @@ func (c *Ctx) reservedByPaths(fn *ssa.Function, words []string) (map[string]bool
 		for _, oc := range bo {
 			out := outcome{eqs: map[string]bool{}, val: oc.Val}
 			for atom, pol := range oc.F {
-				w, ok := eqConstWithParam(atom)
-				if !ok {
-					return nil, false, "condition " + atom
+				if w, ok := eqConstWithParam(atom); ok {
+					out.eqs[w] = pol
+					continue
 				}
-				out.eqs[w] = pol
+				// membership of the parameter in a constant table
+				t := p.Terms[atom]
+				if t == nil {
+					// the test is the returned value itself: find the term by its spelling
+					var find func(x *T, d int) *T
+					find = func(x *T, d int) *T {
+						if x == nil || d > 6 {
+							return nil
+						}
+						if x.String() == atom {
+							return x
+						}
+						for _, a := range x.A {
+							if r := find(a, d+1); r != nil {
+								return r
+							}
+						}
+						return nil
+					}
+					for _, r := range p.Ret {
+						if x := find(r, 0); x != nil {
+							t = x
+						}
+					}
+				}
+				if t != nil {
+					ht := t
+					for ht != nil && ht.Op == "not" && len(ht.A) == 1 {
+						ht = ht.A[0]
+					}
+					if ht != nil && ht.Op == "has" && len(ht.A) == 2 && ht.A[0].Op == "constmap" && ht.A[1].String() == "p0" {
+						keys := map[string]bool{}
+						okKeys := true
+						for i := 0; i+1 < len(ht.A[0].Elems); i += 2 {
+							k, isS := ht.A[0].Elems[i].strVal()
+							if !isS {
+								okKeys = false
+							}
+							keys[k] = true
+						}
+						if okKeys {
+							out.in = append(out.in, member{keys, pol})
+							continue
+						}
+					}
+				}
+				return nil, false, "condition " + atom
 			}
 			outs = append(outs, out)
 		}
@@ -972,6 +1064,11 @@ func (c *Ctx) reservedByPaths(fn *ssa.Function, words []string) (map[string]bool
 			consistent := true
 			for k, pol := range oc.eqs {
 				if (k == w) != pol {
+					consistent = false
+				}
+			}
+			for _, m := range oc.in {
+				if m.keys[w] != m.pol {
 					consistent = false
 				}
 			}
